@@ -1,6 +1,7 @@
 //! vmon — runtime monitors for rust-elements properties C01..C20.
 //! See /verif/DESIGN.md. This binary is the *worker*: the supervisor is /verif/bin/check.
 
+#![allow(unused_imports, dead_code)]
 mod alloc;
 mod corpus;
 mod gen;
